@@ -15,7 +15,7 @@ _PS: Dict[str, dict] = {}
 
 
 def _key(ctx):
-    return ctx.ix.digest + ctx.ix.repo
+    return ctx.ix.digest + ctx.ix.repo + ctx.ix.serial
 
 
 def callgraph(ctx) -> CallGraph:
